@@ -653,6 +653,7 @@ func genCase(t *rapid.T, variant string) tablesCase {
 		StsdEntries:   rapid.SampledFrom([]int{1, 1, 2, 3}).Draw(t, "stsdEntries")})
 	c := tablesCase{Tracks: tracks, Variant: variant}
 	c.Layout = mp4build.GenProgLayout(t, tracks)
+	mp4build.GenEmptyChunkAt(t, &c.Layout)
 	c.TrackIndex = rapid.IntRange(0, len(tracks)-1).Draw(t, "trackIndex")
 	// zero-count stts/ctts entries on the evaluated track, one case in five
 	if rapid.IntRange(0, 4).Draw(t, "zeroRuns") == 0 {
